@@ -156,9 +156,10 @@ def enum_pairs(seed):
         if i1 and not w:
             note("unwitnessed", a, b, f"{a} and {b} are reported as intersecting, but none of the {len(uni)} versions of the closed universe matches both")
     # slot / sub-slot / repository / USE constraints on top of a few version pairs
-    tails = ["", ":0", ":1", ":0/0", ":0/1", "::gentoo", "::other", ":0::gentoo", "[x]", "[-x]", "[x,y]", "[-y]", "[x(+)]", "[-x(+)]", "[-x(-)]", "[x(-)]", ":0[x]"]
+    # slot and sub-slot names that are string prefixes of one another (1 / 15) are different names
+    tails = ["", ":0", ":1", ":15", ":0/0", ":0/1", ":0/15", ":1/5", ":15/2", "::gentoo", "::other", ":0::gentoo", "[x]", "[-x]", "[x,y]", "[-y]", "[x(+)]", "[-x(+)]", "[-x(-)]", "[x(-)]", ":0[x]"]
     repos = {"gentoo": FakeRepo(repo_id="gentoo"), "other": FakeRepo(repo_id="other")}
-    var = [FakePkg(f"cat/pkg-{v}", slot=sl, subslot=ss, repo=repos[r], iuse=iuse, use=use) for v in ("1", "2") for sl, ss in (("0", "0"), ("0", "1"), ("1", "1")) for r in repos
+    var = [FakePkg(f"cat/pkg-{v}", slot=sl, subslot=ss, repo=repos[r], iuse=iuse, use=use) for v in ("1", "2") for sl, ss in (("0", "0"), ("0", "1"), ("1", "1"), ("0", "15"), ("1", "5"), ("15", "2")) for r in repos
            for iuse, use in (((), ()), (("x", "y"), ()), (("x", "y"), ("x",)), (("x", "y"), ("x", "y")), (("x", "y"), ("y",)), (("y",), ("y",)), (("y",), ()))]
     for (opa, va), (opb, vb) in ((("", "1"), ("", "1")), ((">=", "1"), ("<", "2")), (("=", "1"), (">", "1")), (("~", "1"), ("=*", "1"))):
         for ta, tb in itertools.product(tails, repeat=2):
